@@ -161,6 +161,12 @@ func ValidateCounterpartyID(id string, protocol ProtocolID) error {
 		)
 	}
 
+	// NOTE: the counterparty ID is used as a non terminal element of composite
+	// store keys, where the null character is the string delimiter.
+	if strings.Contains(id, "\x00") {
+		return errors.New("counterparty ID cannot contain the null character")
+	}
+
 	var valid bool
 	switch protocol {
 	case PROTOCOL_IBC:
